@@ -62,9 +62,23 @@ def c02_history(rng, ncommits, kind):
     keys = [gen.lk(i, rng.choice([8, 60, 200])) for i in range(40)]
     for i in range(ncommits):
         t = h.begin(True)
-        b = h.bucket("goc", t, 0, gen.hx("b%d" % rng.randrange(2)))
+        b = h.bucket("goc", t, 0, gen.hx("b%d" % (0 if kind == "bigfree" and i < 2 else rng.randrange(2))))
         r = rng.random()
-        if kind == "small":
+        if kind == "bigfree" and i < 2:
+            # a free list that spans several pages: two 80-page values, committed, then deleted; the later (small) commits
+            # rewrite a multi-page free-list record whose page count does not change
+            for j in range(2):
+                if i == 0:
+                    h.emit("put %d %d %s %s" % (t, b, gen.hx("big%d" % j), "r80000:%d" % (j + 1)))
+                else:
+                    h.emit("del %d %d %s" % (t, b, gen.hx("big%d" % j)))
+            h.emit("commit %d" % t)
+            h.emit("snap")
+            r_ = h.begin(False)
+            h.emit("dump %d" % r_)
+            h.emit("drop %d" % r_)
+            continue
+        if kind in ("small", "bigfree"):
             n = rng.randrange(1, 4)
         elif kind == "large":
             n = rng.randrange(10, 40)
@@ -187,7 +201,7 @@ def crash_check(rep, rd, tier, seed, P=1024):
     """returns number of failing images"""
     rng = random.Random(seed)
     failed = 0
-    nhist = 6 if tier == "quick" else 60
+    nhist = 8 if tier == "quick" else 60
     images = 0
     second_images = 0
     commits_seen = 0
@@ -195,13 +209,13 @@ def crash_check(rep, rd, tier, seed, P=1024):
     reported = set()
     jobs = []
     for hi in range(nhist):
-        kind = ["small", "large", "mixed"][hi % 3]
-        ncommits = 5 if tier == "quick" else 10
+        kind = ["small", "large", "mixed", "bigfree"][hi % 4]
+        ncommits = (5 if tier == "quick" else 10) + (2 if kind == "bigfree" else 0)
         text = c02_history(rng, ncommits, kind)
         d = rd.sub()
         st = os.path.join(d, "st.txt")
         dbp = os.path.join(d, "t.db")
-        npages = [32, 64, 4][hi % 3]          # 4 => the file must grow (extension path)
+        npages = [32, 64, 4, 400][hi % 4]          # 4 => the file must grow (extension path)
         r = vlib.run_history(text, dict(pagesize=P, num_pages=npages), d, wrap=STRACE + ["-P", dbp, "-o", st], timeout=300)
         vlib.check_snapshots(r, P)
         if vlib.first_problem(r):
